@@ -4,7 +4,8 @@ Driver for Model/Store.lean (stateful; several database files, one process-globa
   reset                       forget all files and the in-memory lists
   use <n>                     select database file n (created empty on first use)
   mem [ads…] [mats…]          set the in-memory lists
-  op <fault> <operation…>     apply through `with_connection`; fault = `-` or `<k>:<integrity|interface|operational|exitBefore|exitAfter>`
+  op <fault> <operation…>     apply through `with_connection`; fault = `-` or `<k>:<integrity|interface|operational|foreign|exitBefore|exitAfter>`
+                              (`foreign` = an exception outside sqlite3.Error raised instead of statement k: bind failure, KeyboardInterrupt, …)
   count <operation…>          number of statements of the fault-free run (nothing applied)
 operations:
   adsToDb <name> <T|F autoinsert> <T|F overwrite> <type=[v;v]>…          (value `~` = None)
@@ -53,7 +54,7 @@ def parseFault (t : String) : Option (Option (Nat × FaultKind)) :=
     | [k, kind] => do
       let k ← k.toNat?
       let kd ← (match kind with
-        | "integrity" => some FaultKind.integrity | "interface" => some .interface | "operational" => some .operational
+        | "integrity" => some FaultKind.integrity | "interface" => some .interface | "operational" => some .operational | "foreign" => some .foreign
         | "exitBefore" => some .exitBefore | "exitAfter" => some .exitAfter | _ => none)
       some (some (k, kd))
     | _ => none
